@@ -347,7 +347,7 @@ var immutFns = map[string]string{
 	"to_utf16le": "to_utf16le", "from_utf16le": "from_utf16le",
 	"to_utf16be": "to_utf16be", "from_utf16be": "from_utf16be",
 	"to_radix": "to_radix(16)", "from_radix": "from_radix(16)",
-	"to_md5": "to_md5", "to_sha1": "to_sha1", "to_sha256": "to_sha256", "to_sha512": "to_sha512",
+	"to_md4": "to_md4", "to_md5": "to_md5", "to_sha3_224": "to_sha3_224", "to_sha3_256": "to_sha3_256", "to_sha3_384": "to_sha3_384", "to_sha3_512": "to_sha3_512", "to_sha1": "to_sha1", "to_sha256": "to_sha256", "to_sha512": "to_sha512",
 	"tojson": "tojson", "tojson_indent": "tojson({indent: 2})", "fromjson": "fromjson | tovalue",
 	"to_jq": "to_jq", "to_jq_indent": "to_jq({indent: 2})", "from_jq": "from_jq",
 	"to_yaml": "to_yaml", "from_yaml": "from_yaml | tovalue",
@@ -595,9 +595,7 @@ func genLaws(cfg hlib.Config, r *hlib.Rand, o *hlib.Out, ev *evaluator) {
 		add("csv", tbl)
 		// jq literal: every JSON value of the modelled fragment, keys of every shape
 		v := jg.value(r.Range(0, 4))
-		add("jqlit", v)
-		add("jqlit2", v)
-		add("jsonind", v)
+		_ = v // to_jq / indented tojson are modelled now (json run: jqlit, jqlitind, jsonind)
 		// url query: string -> string | [>= 2 strings]
 		q := map[string]any{}
 		for i := r.Intn(4); i > 0; i-- {
@@ -627,7 +625,7 @@ func genLaws(cfg hlib.Config, r *hlib.Rand, o *hlib.Out, ev *evaluator) {
 	}
 	// the pinned interleaving <r><a>1</a><b>2</b><a>3</a><b>4</b></r>
 	add("xmlseq", parseWire("[s72,n,[[s61,{s2374657874:s31},[]],[s62,{s2374657874:s32},[]],[s61,{s2374657874:s33},[]],[s62,{s2374657874:s34},[]]]]"))
-	for _, name := range []string{"yaml", "toml", "xml", "xmlseq", "csv", "jqlit", "jqlit2", "jsonind", "urlquery", "jsonf"} {
+	for _, name := range []string{"yaml", "toml", "xml", "xmlseq", "csv", "urlquery", "jsonf"} {
 		runLaw(o, ev, name, batch[name])
 	}
 
